@@ -86,6 +86,7 @@ func checkCmd(args []string) int {
 	workers := fs.Int("j", 14, "workers")
 	noEvidence := fs.Bool("no-evidence", false, "do not write evidence (scratch trials)")
 	only := fs.String("only", "", "run only the harness function with this name")
+	forceSolver := fs.String("solver", "", "use this solver (cvc5, z3, z3-new) for every run instead of the registered one (cross-checking)")
 	fs.Parse(args[1:])
 	id := args[0]
 	if *tier == "" {
@@ -144,6 +145,9 @@ func checkCmd(args []string) int {
 			P.Solver = "cvc5"
 			if r.Solver != "" {
 				P.Solver = r.Solver
+			}
+			if *forceSolver != "" {
+				P.Solver = *forceSolver
 			}
 			nw := 6
 			if *tier == "thorough" {
